@@ -204,6 +204,7 @@ StepObs(s, r) ==
                              ELSE <<"invalid">>
        [] k = "handle"    -> <<RdBid(s, r), RdBbody(s, r)>>
                              \o (IF Secured(in.op) THEN <<in.cs, in.cu>> \o s.cx[r].scopes ELSE << >>)
+                             \o <<"t:x,y">>   \* the declared default of the array parameter no request sends
        [] k = "respond"   -> <<IF in.accept = "none" THEN "" ELSE in.accept>>
        [] k = "produce"   -> <<in.accept, DataOf(in)>>
        [] k = "done"      -> IF Status(in) = "200" THEN <<"200", in.accept, DataOf(in)>>
